@@ -252,9 +252,13 @@ def run(ctx):
         ctx.floor(R5, n, 2, "dictionary slices in repeat_from_dict")
         gs = ix.all_guards()
         ne = [g for g in gs if any(e.endswith("NotEnoughBytesInDictionary") for e in g["errs"])]
-        ctx.check(len(ne) == 1 and ne[0]["raw"] == "(alloc::vec::Vec::len(self.dict_content) < ($0 - ruzstd::decoding::ringbuffer::RingBuffer::len(self.buffer)))",
-                  R5, "repeat_from_dict::NotEnoughBytesInDictionary", body["file"],
-                  "reach beyond the dictionary must be rejected", observed=[g["raw"] for g in ne])
+        okg = False
+        if len(ne) == 1:
+            pv = hq.Canon(body, inline=True, max_depth=6, force=True)
+            okg = pv(ne[0]["expr"]) == "(alloc::vec::Vec::len(self.dict_content) < ($0 - ruzstd::decoding::ringbuffer::RingBuffer::len(self.buffer)))"
+        ctx.check(okg, R5, "repeat_from_dict::NotEnoughBytesInDictionary", body["file"],
+                  "reach beyond the dictionary (offset - buffered bytes > dictionary length) must be rejected",
+                  observed=[g["raw"] for g in ne])
         # window test selects dictionary access, else OffsetTooBig
         top = hq.tail_expr(body["body"])
         okw = top is not None and top.get("k") == "If" and ix.canon(top["cond"]) == "(self.total_output_counter <= (self.window_size as u64))" \
